@@ -86,7 +86,7 @@ func sortedFuncs(m map[*ssa.Function]*cgStep) []*ssa.Function {
 // callEdges: branch edges of g on which a call satisfying pred returned true / false.
 func callEdges(g *IG, pred func(c *ssa.Call) bool) (tr, fa map[edge]bool) {
 	tr, fa = map[edge]bool{}, map[edge]bool{}
-	for _, ifi := range ifsOf(g.Fn) {
+	for _, ifi := range g.ifs() {
 		for _, outcome := range []bool{true, false} {
 			f, ok := condFact(ifi.Cond, outcome)
 			if !ok || !f.Bool {
